@@ -93,3 +93,55 @@ def ArcInst.suffPenalty (I : ArcInst) : Rat :=
   sumList (I.g.arcs.map fun e => absR e.2.cost) * ((I.T.length : Rat) * (I.T.length : Rat))
 
 end Vrp
+
+namespace Vrp
+
+/-- lexicographic order on `(i, s, j, t)` -/
+def atupLe (a b : ATup) : Bool :=
+  a.1 < b.1 || (a.1 == b.1 && (a.2.1 < b.2.1 || (a.2.1 == b.2.1 &&
+    (a.2.2.1 < b.2.2.1 || (a.2.2.1 == b.2.2.1 && a.2.2.2 ≤ b.2.2.2)))))
+def insertA (x : ATup) : List ATup → List ATup
+  | [] => [x]
+  | y :: ys => if atupLe x y then x :: y :: ys else y :: insertA x ys
+def sortA (l : List ATup) : List ATup := l.foldr insertA []
+
+def ArcInst.selected (I : ArcInst) (x : List Rat) : List ATup :=
+  ((List.range x.length).zip x).filterMap fun (k, v) => if v = 0 then none else I.varTuple k
+
+/-- remove the first element satisfying `p` -/
+def popFirst (p : α → Bool) : List α → Option (α × List α)
+  | [] => none
+  | a :: l => if p a then some (a, l) else (popFirst p l).map fun (b, l') => (b, a :: l')
+
+/-- follow continuations from `arc`: returns the stops of the route and the remaining tuples -/
+def followArc : Nat → ATup → List ATup → List (Nat × Rat) → List (Nat × Rat) × List ATup
+  | 0, arc, ts, acc => (acc ++ [(arc.1, arc.2.1), (arc.2.2.1, arc.2.2.2)], ts)
+  | fuel + 1, arc, ts, acc =>
+    let acc' := acc ++ [(arc.1, arc.2.1)]
+    -- a route ends when it is back at the depot (repaired rule; the pinned code kept following a
+    -- move that leaves the depot at the same time, merging two vehicles' routes)
+    if arc.2.2.1 = 0 then (acc' ++ [(arc.2.2.1, arc.2.2.2)], ts) else
+    match popFirst (fun a => a.1 == arc.2.2.1 && a.2.1 == arc.2.2.2) ts with
+    | none => (acc' ++ [(arc.2.2.1, arc.2.2.2)], ts)
+    | some (nxt, ts') => followArc fuel nxt ts' acc'
+
+/-- `get_routes(x)` (route construction part; the code's two consistency assertions are reported
+    separately by `decodeAsserts`) -/
+def ArcInst.decode (I : ArcInst) (x : List Rat) : List (List (Nat × Rat)) :=
+  let ts := sortA (I.selected x)
+  let rec go (fuel : Nat) (ts : List ATup) (acc : List (List (Nat × Rat))) : List (List (Nat × Rat)) :=
+    match fuel, ts with
+    | 0, _ => acc
+    | _, [] => acc
+    | fuel + 1, arc :: rest =>
+      let r := followArc rest.length arc rest []
+      go fuel r.2 (acc ++ [r.1])
+  go ts.length ts []
+
+/-- the assertions of `get_routes`: every arrival inside its node's window, every customer arrived at once -/
+def ArcInst.decodeAsserts (I : ArcInst) (x : List Rat) : Bool :=
+  let sel := I.selected x
+  sel.all (fun u => decide (I.g.lo u.2.2.1 ≤ u.2.2.2) && leE u.2.2.2 (I.g.hi u.2.2.1)) &&
+  (List.range (I.g.nodes.length - 1)).all fun k => (sel.filter fun u => u.2.2.1 = k + 1).length = 1
+
+end Vrp
